@@ -213,6 +213,28 @@ class Model:
             parts = q.split(".")
             return ".".join(parts[-2:])
 
+        # moved: a module-level function of the confirmed tree that its module now imports from another module of the package is
+        # analysed where it used to live (same body; its globals are still resolved in the module that holds the text)
+        self.moved_functions = {}
+        by_modname: dict = {}
+        for mod_ in self.modules.values():
+            by_modname.setdefault(mod_.name.split(".")[-1], []).append(mod_)
+        have = {short(q) for q in self.functions}
+        for k in sorted(known):
+            mn_, _, fn_ = k.partition(".")
+            if k in have or not fn_ or mn_ not in by_modname or len(by_modname[mn_]) != 1:
+                continue
+            home = by_modname[mn_][0]
+            if fn_ not in home.imports:
+                continue
+            g_ = self.resolve_dotted(home.imports[fn_])
+            if isinstance(g_, FuncInfo) and g_.cls is None and g_.name == fn_ and short(g_.qname) not in known:
+                old_q = g_.qname
+                self.functions.pop(old_q, None)
+                g_.qname = home.name + "." + fn_
+                self.functions[g_.qname] = g_
+                home.functions[fn_] = g_
+                self.moved_functions[g_.qname] = old_q
         # pull-up: a method the confirmed tree defines in class C that C now inherits is analysed as C's own
         # (a copy of the inherited definition with `self: C`), so per-class rules keep their anchors and the
         # type/effect engines dispatch its self-calls from C, not from the base class
@@ -263,6 +285,14 @@ class Model:
         self.absorbed = {}
         self.inlined_into = {}
         if new_helpers:
+            # named constants of a helper's own module are written out first, so that its body means the same in the caller's module
+            from .idioms import _named_constants
+            import copy as _copy6
+            for f_ in new_helpers.values():
+                node_ = _copy6.deepcopy(f_.node)
+                if _named_constants(self, f_, node_):
+                    f_.__dict__.setdefault("raw_node", f_.node)
+                    f_.node = node_
             self._inline_new_helpers(new_helpers)
         # idioms and small constant tables (sa/idioms.py), then calls through locals bound to (a choice of) bound methods
         from .idioms import canonicalise
@@ -404,7 +434,33 @@ class Model:
                                                                         "setdefault", "add", "discard", "popitem", "write", "send"):
                         ok = False
             if not ok:
-                continue
+                # an impure generator is still the list of what it yields when every call of it is consumed on the spot, whole:
+                # list(g()), tuple(g()), sorted(g()), "".join(g()) ...
+                sites_ok = True
+                n_sites = 0
+                consumers = {"list", "tuple", "sorted", "set", "frozenset", "sum", "dict", "max", "min", "any", "all"}
+                for g_ in self.functions.values():
+                    pmap: dict = {}
+                    for p_ in ast.walk(g_.node):
+                        for ch in ast.iter_child_nodes(p_):
+                            pmap[id(ch)] = p_
+                    for c_ in ast.walk(g_.node):
+                        if isinstance(c_, ast.Call) and ((isinstance(c_.func, ast.Attribute) and c_.func.attr == f.name) or
+                                                         (isinstance(c_.func, ast.Name) and c_.func.id == f.name)):
+                            n_sites += 1
+                            par_ = pmap.get(id(c_))
+                            good = isinstance(par_, ast.Call) and len(par_.args) == 1 and par_.args[0] is c_ and (
+                                (isinstance(par_.func, ast.Name) and par_.func.id in consumers) or
+                                (isinstance(par_.func, ast.Attribute) and par_.func.attr == "join"))
+                            if not good:
+                                sites_ok = False
+                    for c_ in ast.walk(g_.node):
+                        if isinstance(c_, ast.Attribute) and c_.attr == f.name and not isinstance(pmap.get(id(c_)), ast.Call):
+                            sites_ok = False  # taken as a value
+                structural = all(not isinstance(n, (ast.Global, ast.Nonlocal, ast.Try, ast.With)) for n in ast.walk(f.node)) and \
+                    all(isinstance(parents.get(id(y)), ast.Expr) and y.value is not None for y in ys)
+                if not (sites_ok and n_sites and structural):
+                    continue
             import copy as _copy5
             node = _copy5.deepcopy(f.node)
             out_name = "_yielded"
